@@ -12,13 +12,16 @@ copying and whatever its signature is), value normal forms and success dependenc
   R3 copy completeness  each spawned thread's result is Ok only if io::copy(child stream, that stream's writer) to EOF was;
                         success of the scope closure depends on the joined result of both copiers (an error of either is
                         returned: `a.and(b)`, `a?; b?`, a loop over the handles with `?` or with a first-error accumulator
-                        that is found empty); the entry returns the spawned child, and only if the copier succeeded;
+                        that is found empty — in the scope closure itself or in a private function the joining is
+                        delegated to: a dependency that is such a function's result stands for what every success
+                        alternative of its body depends on); the entry returns the spawned child, and only if the copier succeeded;
                         the panic payload of every joined thread (and of the scope) is re-raised; both pipes are piped;
                         the returned Output carries the tee'd buffers
   R4 tee                success of TeeWrite::write depends on write_all(buf) on both inner writers with the whole input
                         slice and yields Ok(buf.len()); flush flushes both (two statements or a loop over a table of both)
   R5 mapped writer      write appends every part of an in-order partition of the input (its bytes / its marker-terminated
-                        segments) to the buffer field and flushes exactly when the part ends with the marker; returns
+                        segments; visited by a loop or by the closure of try_for_each / for_each / try_fold / fold on the
+                        same iterator) to the buffer field and flushes exactly when the part ends with the marker; returns
                         Ok(buf.len()); the buffer is a field (state survives across write calls); everything written to
                         the inner writer is mapping_fn(take(buffer)); Drop and unwrap flush the remainder, unwrap takes
                         the inner writer afterwards (no double flush), and the remainder flush is guarded by a non-empty
@@ -218,13 +221,33 @@ def run(ctx, rep):
     # success of the scope closure depends on both joined copy results; the copier returns the scope's result; the entry
     # hands back the spawned child, and only if the copier succeeded (the child may be carried through the copier or kept by
     # the caller)
-    alts = H.fn_alts(sl, sl, sc, optional=True)     # optional: a stream without a pipe has no copier to join
+    # optional: a stream without a pipe has no copier to join; thru: a private function the joining / combining is delegated
+    # to (`handles.join()`) succeeds the ways its body does, its parameters bound to the arguments
+    alts = H.fn_alts(sl, sl, sc, optional=True, thru=lambda name: True)
     ok = bool(alts)
     detail = []
+    def needed_streams(dv, depth=0):
+        """streams whose joined copy result must have been Ok for value dv to be Ok: dv is such a result itself, or a
+        combination of them (`a.and(b)`, the result of a private function that `?`s them, ..): what every one of its
+        success alternatives depends on"""
+        got = joined_streams(dv)
+        if got or depth > 4:
+            return got
+        xalts = H.value_alts(sl, dv, thru=lambda name: True)
+        if not xalts or any(canon(d) == canon(dv) for _, ds in xalts for d in ds):
+            return set()
+        per = []
+        for _, ds in xalts:
+            g = set()
+            for d in ds:
+                g |= needed_streams(d, depth + 1)
+            per.append(g)
+        return set.intersection(*per)
+
     for payload, deps in alts:
         got = set()
         for dv in deps:
-            got |= joined_streams(dv)
+            got |= needed_streams(dv)
         detail.append('Ok(%s) needs %s' % (vstr(payload)[:30], sorted(got)))
         ok = ok and got >= {'stdout', 'stderr'}
     ok = ok and any(x[0] == 'call' and x[1] in SCOPE for x in walk(nf(sl.local(wc, 0))))
@@ -418,30 +441,36 @@ def run(ctx, rep):
                 return (op, oc) in (('Le', True), ('Gt', False))
         return False
     parts = H.partitions(sl, Ew, mw, 1, is_marker)
-    appends = [c for c in mw.calls if not c.indirect and c.args and is_field(sl.operand(mw, c.args[0]), mw, 'buffer') and
+    # the per-part statements live in write itself (a loop) or in the closure handed to try_for_each & co. (captures are
+    # expressed in write's terms either way)
+    appends = [c for g in [mw] + prog.closures_of(mw) for c in g.calls if not c.indirect and c.args and is_field(sl.operand(g, c.args[0]), mw, 'buffer') and
                c.name.startswith('std::vec::Vec::<T, A>::') and c.name.rsplit('::', 1)[-1] in ('push', 'extend_from_slice', 'extend', 'append', 'insert', 'extend_from_within')]
     P = parts[0] if len(parts) == 1 else None
-    ok = P is not None and len(appends) == 1 and appends[0].name in P.APPEND[P.kind] and appends[0].bb in P.loop.body and mw.in_loop(appends[0].bb)
+    body = P.body if P is not None else mw
+    ok = P is not None and len(appends) == 1 and appends[0].name in P.APPEND[P.kind] and P.in_body(appends[0].fn, appends[0].bb)
     if ok:
-        ok = P.is_elem(sl.operand(mw, appends[0].args[1]))
+        ok = P.is_elem(sl.operand(body, appends[0].args[1]))
         # unconditional within the loop body
-        cds = conditions(mw, appends[0].bb, sl)
+        cds = conditions(body, appends[0].bb, sl)
         ok = ok and not [cd for cd in cds if cd.kind == 'bool'] and all(P.is_elem(cd.subject) for cd in cds if cd.kind == 'variant' and cd.subject is not None)
+        # closure form: the consumer itself runs unconditionally
+        ok = ok and (P.call is None or not conditions(mw, P.call.bb, sl))
     rep.check(ok, 'R5', 'push-every-byte', w(mw), 'every input byte is appended to the buffer field', 'not every input byte reaches the buffer')
     fcs = {}
     for e in flushes[mw.path]:
-        fcs[H.top_call(e).bb] = e
-    ok = P is not None and len(fcs) == 1
+        tc = H.top_call(e, body)
+        fcs[tc.bb if tc is not None else None] = e
+    ok = P is not None and len(fcs) == 1 and None not in fcs
     if ok:
         fe = list(fcs.values())[0]
-        fc = H.top_call(fe)
-        ok = fc.bb in P.loop.body and mw.in_loop(fc.bb)
-        cds = [cd for cd in conditions(mw, fc.bb, sl) if cd.kind == 'bool']
+        fc = H.top_call(fe, body)
+        ok = P.in_body(body, fc.bb)
+        cds = [cd for cd in conditions(body, fc.bb, sl) if cd.kind == 'bool']
         test = [cd for cd in cds if any(oc is True and P.ends_with_marker(v, is_marker) for v, oc in cd.views())]
         # besides the marker test only "the buffer is not empty" may guard the flush (always true after the append)
         rest = [cd for cd in cds if cd not in test and not any(says_nonempty(v, oc, mw) for v, oc in cd.views())]
         ok = ok and len(test) == 1 and not rest
-        ok = ok and len(appends) == 1 and mw.dominates(appends[0].bb, fc.bb) and appends[0].bb != fc.bb
+        ok = ok and len(appends) == 1 and appends[0].fn is body and body.dominates(appends[0].bb, fc.bb) and appends[0].bb != fc.bb
         ok = ok and all(verdict(result_fates(prog, c.fn, c)) == 'ok' for c in [l.call for l in fe.chain] + [fe.call])
     rep.check(ok, 'R5', 'flush-on-marker', w(mw), 'flush exactly when the pushed byte == marker_byte (after the push), error propagated', 'segment flush condition is not `byte == marker`')
     malts = H.fn_alts(sl, sl, mw)
@@ -517,13 +546,13 @@ def run(ctx, rep):
         return is_field(v, fn, 'inner')
 
     def guard_allowed(cd, views, subj, g):
-        own = cd.fn is g
+        own = cd.fn is g or (g is mw and P is not None and cd.fn is P.body)       # the per-part statements of write
         if cd.kind == 'variant':
             oc = set(cd.outcome or ())
             if not oc or not oc <= {'Some'} or subj is None:
                 return g is mw and own and P is not None and cd.subject is not None and P.is_elem(cd.subject)
             sv = strip(subj)
-            if g is mw and own and P is not None and H._is_next_cond(mw, P.loop, cd):
+            if g is mw and own and P is not None and P.is_next_cond(cd):
                 return True
             if innerish(sv, g):
                 return True
@@ -589,7 +618,7 @@ def run(ctx, rep):
     # frame: the pending bytes only change by the append in write and the take in the flush
     okay_sites = set(take_sites)
     if len(appends) == 1:
-        okay_sites.add((mw.path, appends[0].bb))
+        okay_sites.add((appends[0].fn.path, appends[0].bb))
     foreign = []
     for f in sorted(module_fns, key=lambda f: f.path):
         for kind, g, bb, c, idx in H.field_mutations(prog, f, 'buffer'):
